@@ -3,16 +3,15 @@ from .. import common
 MANIFEST = {
     "text": "FULL on a decidable domain. Lean 4 theorem C32_tpl_eq_xgo (and C32_agree): for EVERY byte string, every classification of non-ASCII "
             "letters/digits and every scanning mode, if the source is in SharedLexemesOnly (Model/ScanDomain.lean, evaluated on the xgo model's own run: no "
-            "ILLEGAL token, no keyword, no c\"/py\", no '*' directly followed by '*', every comment free of CRs, not '#/' '#*', not continuing with 'line ' after two "
-            "bytes) then the models of the TPL scanner and of the XGo scanner return the same lexemes: same offsets and ends (token boundaries), same literals, "
+            "ILLEGAL token, no keyword, no c\"/py\", no '*' directly followed by '*', no CR inside a /*…*/ or # comment, no '#/' '#*', no comment continuing with "
+            "'line ' after two bytes) then the models of the TPL scanner and of the XGo scanner return the same lexemes: same offsets and ends (token boundaries), same literals, "
             "same kinds by String(), same inserted semicolons, both/neither EOF, and also the same error-handler calls; both runs finish. Proof: from the same "
             "state one pass through Scan of the two dialects ends in the same state with related tokens (step32), the loops run in lockstep (lockstep32), on top "
             "of C15's invariants; the operator switches are compared by spelling over the regenerated tables (C32_switch_agrees_by_spelling, switch32). "
             "Witnesses that every exclusion is a real difference: C32_exclusions_are_differences, C32_line_directive_differs; C32_unit_offset_witness, "
             "C32_domain_examples. Both models are tied to the real TPL and XGo scanners by the differential run, which also compares the model's domain "
             "decision and agreement verdict with those computed on the real scanners; an in-domain input on which the real scanners differ is a violation.",
-    "note": "kinds are compared by Token.String(); the hand transcription of both scanners is validated only differentially; the domain excludes CRLF "
-            "line endings inside // comments (the agreement still holds there and is checked differentially, but is not covered by the theorem).",
+    "note": "kinds are compared by Token.String(); the hand transcription of both scanners is validated only differentially.",
     "technique": "Lean 4 proof (two dialects of one executable model from a common state, lockstep induction) + regenerated tables + differential correspondence of two models with two real scanners + domain oracle",
 }
 
